@@ -12,6 +12,7 @@ import (
 	"net/http/httputil"
 	"net/url"
 	"sync"
+	"sync/atomic"
 	"time"
 
 	"github.com/prometheus/client_golang/prometheus"
@@ -37,6 +38,29 @@ type StackOpts struct {
 	NoServe   bool // do not start Serve (caller does)
 	// BaseCtx, if set, is the parent of the server's context (a library caller's own context, which may carry values)
 	BaseCtx context.Context
+	// EndByDeadline: Stack.Cancel ends the server's context the way a deadline does (Err() == context.DeadlineExceeded)
+	// instead of by cancellation - a library caller's context.WithTimeout
+	EndByDeadline bool
+}
+
+// deadlineCtx is a context whose end the harness decides and whose error is context.DeadlineExceeded.
+type deadlineCtx struct {
+	context.Context
+	done  chan struct{}
+	ended atomic.Bool
+}
+
+func (d *deadlineCtx) Done() <-chan struct{} { return d.done }
+func (d *deadlineCtx) Err() error {
+	if d.ended.Load() {
+		return context.DeadlineExceeded
+	}
+	return nil
+}
+func (d *deadlineCtx) end() {
+	if d.ended.CompareAndSwap(false, true) {
+		close(d.done)
+	}
 }
 
 // Stack is proxyserver.Server + reverseproxy handler + recording backend on an in-memory listener.
@@ -113,7 +137,12 @@ func NewStack(o StackOpts) *Stack {
 	if base == nil {
 		base = context.Background()
 	}
-	s.Ctx, s.Cancel = context.WithCancel(base)
+	if o.EndByDeadline {
+		d := &deadlineCtx{Context: base, done: make(chan struct{})}
+		s.Ctx, s.Cancel = d, d.end
+	} else {
+		s.Ctx, s.Cancel = context.WithCancel(base)
+	}
 	if o.Build != nil {
 		s.Server = o.Build(s.Ctx, s.Handler, tc)
 	} else {
